@@ -222,7 +222,7 @@ func c17NowLayout(k, today int) string {
 	d := func(off int) string { return sm.DateLit{Date: sm.FromDayNumber(today + off)}.String() }
 	switch k {
 	case 0:
-		return d(0) + "\n    1h\n    12:00 - ?\n"
+		return d(0) + "\n    1h\n    12:00 - ?\n    -15m break\n" // (the open range is not the last entry)
 	case 1:
 		return d(-1) + "\n    12:00 - ?\n\n" + d(0) + "\n    <23:30 - ? x\n"
 	case 2:
